@@ -37,6 +37,9 @@ def item_text(names, nparams, rng, form=None, fixed=None):
         f"fn g(x: {p0}) -> <{p1} as core::ops::Deref>::Target {{ let f = |y: {p0}| -> {p1} {{ y.into() }}; loop {{}} }}",
         f"type Alias = ({p0}, fn({p1}) -> {p0}, &'static dyn Fn({p0}) -> {p1});",
         f"const C: usize = core::mem::size_of::<{p0}>() + {p1}::LEN;",
+        # generic arguments on a LATER segment of a parameter-rooted path (generic associated types, turbofish on an
+        # associated fn): they mention other parameters and must be rewritten too
+        f"fn h(x: {p0}::Of<{p1}>, y: Option<{p1}::Of<Vec<{p0}>, {p0}>>) -> usize {{ let _k = {p0}::make::<{p1}>(); let _v: <{p0} as m::Tr>::Of<{p1}> = loop {{}}; 0 }}",
     ]
     return forms[form % len(forms)] if form is not None else rng.choice(forms)
 
@@ -146,7 +149,7 @@ def run(tier, seed, replay=None):
         bi = rng.randrange(nb)
         base = copy.deepcopy(plan)
         m = base.blocks()[bi][2]
-        form = rng.randrange(5)
+        form = rng.randrange(6)
         for v in range(4):
             q = copy.deepcopy(base)
             mm = q.blocks()[bi][2]
